@@ -69,8 +69,8 @@ def size_class(n: int) -> str:
 
 def gen_records(rng: random.Random, delta: int) -> list[tuple[int, str, Any, int]]:
     """records as (offset, kind, payload, fill-seed); payload for plain is a length."""
-    style = rng.choice(["mixed", "mixed", "tiny_many", "big", "rle_heavy", "single"])
-    n = {"mixed": rng.randrange(1, 7), "tiny_many": rng.randrange(6, 13), "big": rng.randrange(1, 3), "rle_heavy": rng.randrange(1, 6), "single": 1}[style]
+    style = rng.choice(["mixed", "mixed", "tiny_many", "big", "rle_heavy", "single", "empty"] if rng.random() < 0.3 else ["mixed", "mixed", "tiny_many", "big", "rle_heavy", "single"])
+    n = {"mixed": rng.randrange(1, 7), "tiny_many": rng.randrange(6, 13), "big": rng.randrange(1, 3), "rle_heavy": rng.randrange(1, 6), "single": 1, "empty": 0}[style]
     recs: list[tuple[int, str, Any, int]] = []
     cursor = rng.randrange(FREE_LO, FREE_HI)
     for i in range(n):
@@ -309,8 +309,7 @@ def run_single(case: dict[str, Any], stats: Stats) -> list[Violation]:
     elif o["fired"]:
         fclass = "eio"
     dclass = "0" if delta == 0 else ("small" if abs(delta) < 0x100 else ("0x200" if abs(delta) == 0x200 else "large")) + ("-" if delta < 0 else "+")
-    if recs:
-        stats.state(kinds, dclass, bs, bool(knobs.get("short_reads")), fclass, site, case["slot"]["ctx"])
+    stats.state(kinds or ("no_records",), dclass, bs, bool(knobs.get("short_reads")), fclass, site, case["slot"]["ctx"])
     stats.bump(f"stored_file_class:{klass}")
 
     detail = {"outcome": {k: o.get(k) for k in ("kind", "ret", "exc", "fired")}, "stored_class": klass, "stored_len": len(stored), "bufsize": bs}
